@@ -123,4 +123,64 @@ def build():
         'no_set_order_in_generated_text', ['C14'], syn_set_order,
         'no iteration over / ordered consumption of a set in the modules that generate SQL, hints and previews '
         '(everything set-typed goes through sorted() or an order-free use)'))
+    fam.syntactic.append(Syntactic(
+        'database_argument_threaded', ['C16'], syn_database_threaded,
+        'every call, on the evolve path, of a repository function with an optional database parameter passes that '
+        'parameter (nothing silently falls back to the default alias)'))
     return fam
+
+
+# ------------------------------------------------------------------------------------------------- C16
+DB_PARAMS = ('database', 'database_name', 'db_name', 'using')
+DB_SCOPE = ['django_evolution/evolve/*.py', 'django_evolution/utils/evolutions.py', 'django_evolution/utils/graph.py',
+            'django_evolution/mutators/*.py', 'django_evolution/management/commands/evolve.py',
+            'django_evolution/utils/migrations.py', 'django_evolution/utils/models.py', 'django_evolution/utils/sql.py']
+DB_ACCEPTED = {
+    ('django_evolution/utils/evolutions.py', 'get_app_upgrade_info', 'get_app_mutations', 'database'):
+        'only looks for MoveToDjangoMigrations among the Python mutations; per-database .sql files cannot hold one',
+}
+
+
+def syn_database_threaded():
+    """No call on the evolve path relies on the default database alias: a repository function that takes an optional
+    database parameter is always given one explicitly."""
+    from pyvc import extract
+    files = [f for f in glob.glob(os.path.join(extract.REPO, 'django_evolution/**/*.py'), recursive=True) if '/tests/' not in f]
+    defs = {}
+    for f in files:
+        tree = ast.parse(open(f).read())
+        for n in ast.walk(tree):
+            if isinstance(n, ast.FunctionDef) and not (n.name.startswith('__') and n.name.endswith('__')):
+                a = n.args
+                names = [x.arg for x in a.posonlyargs + a.args]
+                for i, nm in enumerate(names):
+                    if nm in DB_PARAMS and i >= len(names) - len(a.defaults):
+                        defs.setdefault(n.name, []).append((nm, i, bool(names) and names[0] in ('self', 'cls')))
+                for x, d in zip(a.kwonlyargs, a.kw_defaults):
+                    if x.arg in DB_PARAMS and d is not None:
+                        defs.setdefault(n.name, []).append((x.arg, None, False))
+    found = []
+    scope = []
+    for pat in DB_SCOPE:
+        scope += sorted(glob.glob(os.path.join(extract.REPO, pat)))
+    for f in scope:
+        rel = os.path.relpath(f, extract.REPO)
+        tree = ast.parse(open(f).read())
+        for fn in ast.walk(tree):
+            if not isinstance(fn, ast.FunctionDef):
+                continue
+            for c in ast.walk(fn):
+                if not isinstance(c, ast.Call):
+                    continue
+                name = c.func.id if isinstance(c.func, ast.Name) else (c.func.attr if isinstance(c.func, ast.Attribute) else None)
+                for param, idx, meth in defs.get(name, []):
+                    passed = any(k.arg == param or k.arg is None for k in c.keywords) or \
+                        any(isinstance(a_, ast.Starred) for a_ in c.args)
+                    if idx is not None and len(c.args) > idx - (1 if meth else 0):
+                        passed = True
+                    if not passed and (rel, fn.name, name, param) not in DB_ACCEPTED:
+                        found.append('%s:%d %s(): %s(...) without %s=' % (rel, c.lineno, fn.name, name, param))
+    found = sorted(set(found))
+    if found:
+        return False, 'calls falling back to the default database: ' + '; '.join(found)
+    return True, '%d functions with an optional database parameter, %d files scanned' % (len(defs), len(scope))
